@@ -29,6 +29,11 @@ fn extra_palette() -> Vec<MLabel> {
     for i in [0x0102_0304_0506_0708i64, 0x0102_0304_0506_0709, -0x0102_0304_0506_0708, -0x0102_0304_0506_0709] {
         v.push(MLabel::Int(i));
     }
+    // equal byte length, different character counts (the head of a text is sized by its bytes), and
+    // texts of different lengths within one head-length class where the longer one sorts first bytewise
+    for t in ["\u{e9}".repeat(12), "a".repeat(24), "\u{10151}".repeat(6), "\u{e9}".repeat(13), "a".repeat(26), "a".repeat(40), "b".repeat(30), "b".repeat(24), "\u{e9}".repeat(128), "a".repeat(256), "b".repeat(255)] {
+        v.push(MLabel::Text(t));
+    }
     v
 }
 
